@@ -425,7 +425,7 @@ func c02Plan(r *Rng, cs *C02Case) (canon *C02Exec, vars []struct {
 	if !mayReadClock(cs) {
 		add("clock", func(e *C02Exec) { e.Jump = int64(r.Range(1, 400000000)) })
 	}
-	if cs.EnvOnly {
+	if cs.EnvOnly && !mayReadClock(cs) { // the child reads the real clock
 		add("cli-process", func(e *C02Exec) { e.CLI = true })
 	}
 	for i := 0; i < 4; i++ { // random combinations
